@@ -258,12 +258,21 @@ def rule_cd(ck, R, eng, ps):
                 d = L(c[3]) - L(p_h)
                 at = [fmt(a) for a in d.atoms()]
                 if len(at) == 1 and d.c == 0 and list(d.t.values()) == [1]:
-                    a0 = at[0]
-                    if arr == 'area' and a0.endswith('->size') and '- 1' in a0.replace('(', '').replace(')', '') or \
-                            (arr == 'area' and 'size' in a0):
-                        okc = True
-                    if arr == 'entry' and 'rds_size' in a0:
-                        okc = True
+                    atom = list(d.atoms())[0]
+                    # the size must be that of the PREVIOUS item (index i - 1)
+                    item = None
+                    if arr == 'area' and atom[0] == 'f' and atom[2] == 'size':
+                        item = atom[1]
+                    if arr == 'entry' and atom[0] == 'i' and 'rds_size' in fmt(atom[1]) and atom[2][0] == 'f' and atom[2][2] == 'type':
+                        item = atom[2][1]
+                    if item is not None:
+                        di = L(item) - (L(arrp) + L(i_h) - 1)
+                        if di.is_const() and di.c == 0:
+                            okc = True
+                        else:
+                            bad = bad or ('the overlap test adds the size of item %s to the previous %s; the end of the previous item needs the size of item i-1 '
+                                          '(items of different size are mis-judged: a smaller successor overlapping by one word is accepted, a larger adjacent one rejected)'
+                                          % (fmt(item), fieldname))
             if not okc:
                 bad = bad or 'ADDRESS_OVERLAP is not decided by item[i].%s < previous + size(item[i-1]) (strict: adjacency allowed)' % fieldname
             if not any(c == ('cmp', '<=', p_h, cur) for c in p.cond_terms()):
